@@ -16,6 +16,8 @@
 import RaftVerif.Model.Snapshot
 import RaftVerif.Proofs.LogLemmas
 import RaftVerif.Proofs.NodeLemmas
+import RaftVerif.Proofs.ReplSnapshot
+import RaftVerif.Proofs.ReplExample
 set_option linter.unusedSimpArgs false
 set_option linter.unusedVariables false
 namespace Raft
@@ -209,5 +211,55 @@ theorem C11_counterexample_chunk_mixing :
       exS20.installA 0 exS20a = some (n1, r1, e1, x1) ∧ n1.installA 1 exS20b = some (n2, r2, e2, x2) ∧
       n2.snaps = [{ index := 20, term := 2, data := [66, 66, 66, 66] }] ∧ n2.snapIndex = 10 := by
   refine ⟨_, _, _, _, _, _, _, _, rfl, rfl, by decide, by decide⟩
+
+/-! ### Cluster level (Proofs/ReplSnapshot.lean)
+
+    In the replication-layer model logs are whole (a compaction only drops what the snapshot
+    stands for: C10). Installing the snapshot (i, log of the leader up to i) — keep the log if
+    it holds the snapshot's last entry, otherwise discard it and continue from the snapshot —
+    is, under log matching, exactly what the replication request "previous index 0, entries
+    1..i" does. So an installation neither loses nor resurrects anything the safety theorems
+    speak about: the state after it is a reachable state of the model of C01/C04/C06/C07. -/
+
+/-- **An installation is a replication step of the safety model.** -/
+theorem C11_install_is_replication {cfg : Config} (hnd : cfg.voterIds.Nodup) {s : Repl.AState} (hr : Repl.Reachable cfg s)
+    (l n i stamp : Nat) (hl : (s.nodes l).role = .leader) (hi : i ≤ (s.nodes l).commit) (hn : n ≠ l)
+    (ht : (s.nodes n).term ≤ (s.nodes l).term) :
+    ∃ s1 s2, Repl.Step cfg s s1 ∧ Repl.Step cfg s1 s2 ∧
+      (s2.nodes n).log = Repl.installLog (s.nodes n).log (s.nodes l).log i ∧
+      (s2.nodes n).commit = max (s.nodes n).commit i ∧
+      (s2.nodes n).term = (s.nodes l).term ∧ (∀ j, j ≠ n → s2.nodes j = s.nodes j) :=
+  Repl.install_snapshot_simulated hnd hr l n i stamp hl hi hn ht
+
+/-- **No committed state is lost, none is resurrected**: after an installation, in every later
+    state, the applied prefixes of any two nodes (the installing one included) are comparable,
+    and the installed node's log starts with the snapshot's prefix. -/
+theorem C11_install_preserves_safety {cfg : Config} (hnd : cfg.voterIds.Nodup) {s : Repl.AState} (hr : Repl.Reachable cfg s)
+    (l n i stamp : Nat) (hl : (s.nodes l).role = .leader) (hi : i ≤ (s.nodes l).commit) (hn : n ≠ l)
+    (ht : (s.nodes n).term ≤ (s.nodes l).term) :
+    ∃ s2, Repl.ReachableFrom cfg s s2 ∧
+      (s2.nodes n).log = Repl.installLog (s.nodes n).log (s.nodes l).log i ∧
+      (s2.nodes n).log.take i = (s.nodes l).log.take i ∧
+      (s2.nodes n).commit = max (s.nodes n).commit i ∧
+      ∀ s3, Repl.ReachableFrom cfg s2 s3 → ∀ a b,
+        (s2.nodes a).log.take (s2.nodes a).commit <+: (s3.nodes b).log.take (s3.nodes b).commit ∨
+        (s3.nodes b).log.take (s3.nodes b).commit <+: (s2.nodes a).log.take (s2.nodes a).commit := by
+  obtain ⟨s2, hr2, hf2, hlog, hcom⟩ := Repl.install_snapshot_reachable hnd hr l n i stamp hl hi hn ht
+  have hinv := Repl.inv_reachable hnd hr
+  have hig : i ≤ (s.nodes l).log.length := by have := (hinv.commit_ok l).1; omega
+  refine ⟨s2, hf2, hlog, ?_, hcom, fun s3 h3 a b => Repl.state_machine_safety hnd hr2 h3 a b⟩
+  rw [hlog]
+  apply Repl.installLog_prefix _ _ _ hig
+  intro j hj1 hj2 hj3 hj4
+  exact Repl.lm_agree hinv n (s.nodes l).term l (s.nodes l).log (hinv.leader_glog l hl) j hj1 hj2 hj3 hj4
+
+/-- Non-vacuity: in the example run (Proofs/ReplExample.lean) node 3 has an empty log while
+    the leader has committed two entries; the installation hands it exactly those. -/
+example : ∃ s2, Repl.ReachableFrom Repl.cfg3 Repl.s7 s2 ∧ (s2.nodes 3).log = [⟨1, 0⟩, ⟨1, 42⟩] ∧ (s2.nodes 3).commit = 2 := by
+  obtain ⟨s2, hf, hlog, _, hcom, _⟩ := C11_install_preserves_safety Repl.cfg3_nodup Repl.s7_reachable 1 3 2 0
+    (by decide) (by decide) (by decide) (by decide)
+  refine ⟨s2, hf, ?_, ?_⟩
+  · rw [hlog]; decide
+  · rw [hcom]; decide
 
 end Raft
